@@ -242,7 +242,47 @@ def s_iter_sum_lens(e, st, callee, args, dty):
     return Int(z3.simplify(t), "usize")
 
 
+def s_swap_remove(e, st, callee, args, dty):
+    r = args[0]
+    l = as_list(e, st, r)
+    i = args[1]
+    if l is None or not isinstance(r, Ref) or not isinstance(i, Int):
+        return NotImplemented
+    iv = z3.simplify(i.t)
+    if not z3.is_bv_value(iv):
+        return NotImplemented
+    k = iv.as_long()
+    if k >= len(l.items):
+        return [(None, "diverge")]
+    items = list(l.items)
+    out = items[k]
+    items[k] = items[-1]
+    items.pop()
+    e.store(st, r.cell, r.path, ListV(items, l.ty))
+    return out
+
+
+def s_vec_remove(e, st, callee, args, dty):
+    r = args[0]
+    l = as_list(e, st, r)
+    i = args[1]
+    if l is None or not isinstance(r, Ref) or not isinstance(i, Int):
+        return NotImplemented
+    iv = z3.simplify(i.t)
+    if not z3.is_bv_value(iv):
+        return NotImplemented
+    k = iv.as_long()
+    if k >= len(l.items):
+        return [(None, "diverge")]
+    items = list(l.items)
+    out = items.pop(k)
+    e.store(st, r.cell, r.path, ListV(items, l.ty))
+    return out
+
+
 LIST = {
+    r"^(std::vec::|alloc::vec::)?Vec::swap_remove$": s_swap_remove,
+    r"^(std::vec::|alloc::vec::)?Vec::remove$": s_vec_remove,
     r"^<.* as (std::iter::)?Iterator>::peekable$": s_peekable,
     r"^(std::iter::)?Peekable::peek$": s_peek,
     r"^<.* as (std::iter::)?Iterator>::count$": s_iter_count,
